@@ -29,12 +29,12 @@ impl<'s> core::fmt::Display for Character<'s> {
 pub open spec fn chv(v: Seq<Character>) -> Seq<Seq<char>> { v.map(|i: int, c: Character| c.str@) }
 pub uninterp spec fn chars_of(s: &str, g: bool) -> Seq<Seq<char>>;
 
-pub struct CharString<'a> { pub str: &'a str, g: bool }
+pub struct CharString<'a> { pub str: &'a str, pub g: bool }
 pub type CS<'a> = CharString<'a>;
 impl<'s> CharString<'s> {
     pub closed spec fn view(&self) -> Seq<Seq<char>> { chars_of(self.str, self.g) }
     #[verifier::external_body]
-    pub fn new(str: &'s str, use_graphemes: bool) -> (r: CharString<'s>) ensures r.view() == chars_of(str, use_graphemes) { unimplemented!() }
+    pub fn new(str: &'s str, use_graphemes: bool) -> (r: CharString<'s>) ensures r.view() == chars_of(str, use_graphemes), r.str == str { unimplemented!() }
     #[verifier::external_body]
     pub fn len(&self) -> (r: usize) ensures r == self.view().len() { unimplemented!() }
     #[verifier::external_body]
